@@ -54,6 +54,14 @@ let gcm k n ct aad =
     if Hashtbl.length gcm_memo > 64 then Hashtbl.reset gcm_memo;
     Hashtbl.replace gcm_memo key r; r
 
+(* the Gallina X25519 costs ~1.5 s: auth / decide / dispatch ask for the same product *)
+let dh_memo : (string, n list option) Hashtbl.t = Hashtbl.create 16
+let dh_real_memo pv pub =
+  let key = hex_of_bytes pv ^ ":" ^ hex_of_bytes pub in
+  match Hashtbl.find_opt dh_memo key with
+  | Some r -> r
+  | None -> let r = dh_real pv pub in Hashtbl.replace dh_memo key r; r
+
 let show_perr = function
   | EMagic | ENotHello | EHelloLen | EMalformedHello | EMalformedExts -> "hello"
   | EMalformedKS -> "ks-malformed" | EKSLen -> "ks-len" | ENoX25519 -> "no-x25519"
@@ -81,7 +89,7 @@ let () = iter_lines (fun line ->
       let st = parse_state kv in
       let now = z_of_hex (get "now" kv) in
       let pkt = bytes_of_hex (get "pkt" kv) in
-      let dh = if get "x25519" kv = "1" then dh_real else dh_table kv in
+      let dh = if get "x25519" kv = "1" then dh_real_memo else dh_table kv in
       let hid = hid_table kv in
       let p = if get "kind" kv = "ws" then PWS (hid pkt) else PTLS pkt in
       let auth = (match auth_first_packet dh gcm p st now with
